@@ -87,6 +87,18 @@ type gl struct {
 	retSuffix   []string              // receiver fields handed back with every result
 	u64AsInt    bool
 	byteRd      bool // *bufio.Reader is used through ReadByte/UnreadByte: the abstract ByteRd
+	// external objects (mash): a parameter of an external pointer type is an abstract state `σ`; its methods are
+	// parameters `<name>_<Method> : σ → args → σ`; the state is handed back as the result.  A local created by an
+	// external constructor listed in hashers is a hash.Hash64: the bytes written since Reset, summed by a parameter
+	extObjs     map[string]bool   // parameter names
+	extObjOps   map[string]string // "<name>_<Method>" -> Lean type of the operation
+	extObjUsed  map[string]bool
+	hashUsed    map[string]bool
+	hashers     map[string]string // "pkg.Constructor" -> hash parameter name
+	hashLocals  map[types.Object]string // local hasher -> Lean term of its seed argument
+	hashKind    map[types.Object]string // local hasher -> hash parameter name
+	xGlobals    map[string]bool // globals of other packages needed by cross-package calls (become parameters)
+	xIter       map[string][2]string // "pkg.Func" of a translated iter.Seq function of another package -> {lean name, extra leading args}
 	selfExts    []string // ext parameters a self-recursive function is declared to take (fixed up front)
 	selfRec     bool   // the function being translated calls itself: its body is wrapped in a match on `fuel`
 	floatLean   string // Lean type standing for float64 (newick: distances are the model's opaque `Dist`), zero = none
@@ -428,6 +440,14 @@ func (g *gl) leanType(t types.Type) string {
 	}
 	if isAccum(t) {
 		return "List UInt8"
+	}
+	if b, ok := t.Underlying().(*types.Basic); ok && g.extObjs != nil {
+		switch b.Kind() {
+		case types.Uint32:
+			return "UInt32"
+		case types.Uint64:
+			return "UInt64"
+		}
 	}
 	switch u := t.Underlying().(type) {
 	case *types.Basic:
@@ -1180,6 +1200,14 @@ func (e ex) opnd2() string {
 }
 
 func (g *gl) call(c *ast.CallExpr) ex {
+	if sel, ok := c.Fun.(*ast.SelectorExpr); ok && len(c.Args) == 0 && sel.Sel.Name == "Sum64" && g.hashLocals != nil {
+		if id, ok := sel.X.(*ast.Ident); ok {
+			if seed, ok := g.hashLocals[g.objOf(id)]; ok {
+				g.hashUsed[g.hashKind[g.objOf(id)]] = true
+				return ex{text: g.hashKind[g.objOf(id)] + " " + seed + " " + g.nameOf(g.objOf(id))}
+			}
+		}
+	}
 	if sel, ok := c.Fun.(*ast.SelectorExpr); ok && len(c.Args) == 0 {
 		if v, ok := g.accumVar(sel.X); ok {
 			switch sel.Sel.Name {
@@ -2063,6 +2091,22 @@ func (g *gl) stmt(w *wr, s ast.Stmt) {
 				g.die(v, "multi-value :=")
 			}
 			id := v.Lhs[0].(*ast.Ident)
+			if c, ok := v.Rhs[0].(*ast.CallExpr); ok && g.hashers != nil {
+				if sel, ok := c.Fun.(*ast.SelectorExpr); ok {
+					if pk, ok := sel.X.(*ast.Ident); ok {
+						if pn, ok := g.info.Uses[pk].(*types.PkgName); ok {
+							if _, ok := g.hashers[pn.Imported().Name()+"."+sel.Sel.Name]; ok && len(c.Args) == 1 {
+								// h := murmur3.New64WithSeed(seed): the bytes written since the last Reset
+								g.hashLocals[g.objOf(id)] = g.expr(c.Args[0]).arg()
+								g.hashKind[g.objOf(id)] = g.hashers[pn.Imported().Name()+"."+sel.Sel.Name]
+								g.mut[g.objOf(id)] = true
+								w.line("let mut " + g.nameOf(g.objOf(id)) + " : List UInt8 := []")
+								return
+							}
+						}
+					}
+				}
+			}
 			if isAccum(g.typeOf(v.Rhs[0])) {
 				// b := &strings.Builder{} / bytes.NewBuffer(nil) / &bytes.Buffer{}: an empty accumulator
 				empty := false
@@ -2305,6 +2349,38 @@ func (g *gl) stmt(w *wr, s ast.Stmt) {
 	case *ast.ExprStmt:
 		if c, ok := v.X.(*ast.CallExpr); ok && g.accumStmt(w, c) {
 			return
+		}
+		if c, ok := v.X.(*ast.CallExpr); ok && g.extObjs != nil {
+			if sel, ok := c.Fun.(*ast.SelectorExpr); ok {
+				if id, ok := sel.X.(*ast.Ident); ok {
+					if g.extObjs[id.Name] {
+						// mh.Push(x): an operation of the abstract object
+						op := id.Name + "_" + sel.Sel.Name
+						if _, ok := g.extObjOps[op]; !ok {
+							g.die(c, "method "+sel.Sel.Name+" of the external object "+id.Name)
+						}
+						g.extObjUsed[op] = true
+						parts := []string{op, id.Name}
+						for _, a := range c.Args {
+							parts = append(parts, g.expr(a).arg())
+						}
+						w.line(id.Name + " := " + strings.Join(parts, " "))
+						return
+					}
+					if _, ok := g.hashLocals[g.objOf(id)]; ok {
+						hv := g.nameOf(g.objOf(id))
+						switch {
+						case sel.Sel.Name == "Reset" && len(c.Args) == 0:
+							w.line(hv + " := []")
+						case sel.Sel.Name == "Write" && len(c.Args) == 1:
+							w.line(hv + " := " + hv + " ++ " + g.expr(c.Args[0]).arg())
+						default:
+							g.die(c, "hasher method "+sel.Sel.Name)
+						}
+						return
+					}
+				}
+			}
 		}
 		if c, ok := v.X.(*ast.CallExpr); ok && g.rdKind == "" {
 			if sel, ok := c.Fun.(*ast.SelectorExpr); ok {
@@ -2933,6 +3009,55 @@ func (g *gl) forStmt(w *wr, v *ast.ForStmt) {
 func (g *gl) rangeStmt(w *wr, v *ast.RangeStmt) {
 	if v.Tok != token.DEFINE || v.Key == nil {
 		g.die(v, "range form")
+	}
+	if c, ok := v.X.(*ast.CallExpr); ok && g.xIter != nil && v.Value == nil && v.Tok == token.DEFINE {
+		// for b := range otherpkg.Iter(args): the items the (translated) iterator hands to a consumer that never
+		// stops; the body must not leave the loop early (then the consumer's answer would matter)
+		if sel, ok := c.Fun.(*ast.SelectorExpr); ok {
+			if pk, ok := sel.X.(*ast.Ident); ok {
+				if pn, ok := g.info.Uses[pk].(*types.PkgName); ok {
+					if it, ok := g.xIter[pn.Imported().Name()+"."+sel.Sel.Name]; ok {
+						early := false
+						ast.Inspect(v.Body, func(n ast.Node) bool {
+							switch y := n.(type) {
+							case *ast.ReturnStmt:
+								early = true
+							case *ast.BranchStmt:
+								if y.Tok == token.BREAK || y.Tok == token.GOTO {
+									early = true
+								}
+							case *ast.FuncLit:
+								return false
+							}
+							return true
+						})
+						if early {
+							g.die(v, "range over an iterator with an early exit")
+						}
+						parts := []string{it[0]}
+						if it[1] != "" {
+							parts = append(parts, it[1])
+							for _, gv := range strings.Fields(it[1]) {
+								g.xGlobals[gv] = true
+							}
+						}
+						for _, a := range c.Args {
+							parts = append(parts, g.expr(a).arg())
+						}
+						t := g.tmp()
+						w.line("let " + t + " ← " + strings.Join(parts, " ") + " (fun _ => true)")
+						kn := g.nameOf(g.objOf(v.Key.(*ast.Ident)))
+						w.line("for " + kn + " in " + t + " do")
+						w.ind++
+						g.loops = append(g.loops, "for")
+						g.block(w, v.Body.List)
+						g.loops = g.loops[:len(g.loops)-1]
+						w.ind--
+						return
+					}
+				}
+			}
+		}
 	}
 	xt := g.typeOf(v.X)
 	x := g.expr(v.X) // before the loop variables are named: they are not in scope here
@@ -3648,6 +3773,87 @@ func (g *gl) funcOrMethod(recvType, goName, name, rel, placeholder string) {
 		text := fmt.Sprintf("def %s_Found : Bool := true\n%s/-- translated from %s in %s/%s%s -/\ndef %s %s : Option %s := %s%s",
 			name, strings.Join(g.lits, ""), src, rel, file, doc, name, all, paren(resT), intro, bodyText)
 		return text, globals
+	})
+}
+
+// extObjFunction translates a function that drives EXTERNAL objects (mash.Add: a *minhash.MinHash and a murmur3
+// hasher) and returns nothing: the external object parameter is an abstract state `σ` whose methods are
+// parameters, the hasher is the bytes written since Reset and a hash parameter, iterators of other translated
+// packages are called with the consumer that never stops.  The result is the object's final state.
+func (g *gl) extObjFunction(name, rel, placeholder string, opOrder, hashOrder, extOrder []string, xGlobalT map[string]string) {
+	g.guarded(name, placeholder, func() (string, []string) {
+		fd, file := g.findFunc(name, 0)
+		if fd == nil || fd.Body == nil {
+			g.die(nil, "function not found")
+		}
+		if fd.Type.Results != nil && len(fd.Type.Results.List) > 0 {
+			g.die(fd, "extObjFunction with results")
+		}
+		g.findMutated(fd.Body)
+		g.yieldT, g.curFunc, g.lits = "", name, nil
+		defer func() { g.curFunc = "" }()
+		g.structLoc = map[types.Object][]string{}
+		g.retSuffix, g.results, g.namedRes = nil, nil, false
+		g.extUsed, g.extObjUsed, g.hashUsed, g.xGlobals = map[string]bool{}, map[string]bool{}, map[string]bool{}, map[string]bool{}
+		g.hashLocals, g.hashKind = map[types.Object]string{}, map[types.Object]string{}
+		g.recLocal = map[types.Object]bool{}
+		g.usesFuel = false
+		var params, objs []string
+		for _, fl := range fd.Type.Params.List {
+			for _, pn := range fl.Names {
+				o := g.info.Defs[pn]
+				if g.extObjs[pn.Name] {
+					params = append(params, "("+pn.Name+" : σ)")
+					objs = append(objs, pn.Name)
+					continue
+				}
+				params = append(params, "("+g.nameOf(o)+" : "+g.leanType(o.Type())+")")
+				if g.mut[o] {
+					g.die(fd, "a plain parameter is written")
+				}
+			}
+		}
+		if len(objs) != 1 {
+			g.die(fd, "exactly one external object parameter expected")
+		}
+		w := &wr{b: &bytes.Buffer{}, ind: 1}
+		w.line("let mut " + objs[0] + " := " + objs[0])
+		g.block(w, fd.Body.List)
+		w.line("return " + objs[0])
+		if g.usesFuel {
+			g.die(fd, "fuel in an extObjFunction")
+		}
+		var lead []string
+		for _, gv := range g.sortedGlobals() {
+			lead = append(lead, "(g_"+gv+" : "+g.leanType(g.pkg.Scope().Lookup(gv).Type())+")")
+		}
+		var xg []string
+		for k := range g.xGlobals {
+			xg = append(xg, k)
+		}
+		sort.Strings(xg)
+		for _, k := range xg {
+			lead = append(lead, "("+k+" : "+xGlobalT[k]+")")
+		}
+		for _, k := range extOrder {
+			if g.extUsed[k] {
+				lead = append(lead, "("+g.extFuncs[k].param+" : "+g.extFuncs[k].typ+")")
+			}
+		}
+		for _, h := range hashOrder {
+			if g.hashUsed[h] {
+				lead = append(lead, "("+h+" : UInt32 → List UInt8 → UInt64)")
+			}
+		}
+		for _, op := range opOrder {
+			if g.extObjUsed[op] {
+				lead = append(lead, "("+op+" : "+g.extObjOps[op]+")")
+			}
+		}
+		all := strings.Join(append(lead, params...), " ")
+		text := fmt.Sprintf("def %s_Found : Bool := true\n/-- translated from %s in %s/%s; the external object is an abstract state `σ`, its methods and the hash function are parameters (nothing is assumed about them), the result is the object's final state -/\ndef %s {σ : Type} %s : Option σ := do\n%s",
+			name, name, rel, file, name, all, w.b.String())
+		return text, nil
 	})
 }
 
@@ -4414,6 +4620,16 @@ func goLean(repo, out string) {
 	g2c.method("Node", "MarshalText", "Node_MarshalText", "formats/newick", "def Node_MarshalText (fmt_float : Newick.Dist → List UInt8) (fuel : Nat) (n : Newick.Tree) : Option (("+B+") × GoErr) := none")
 	w.WriteString(g2c.funcs["Node_newick"].text + "\n")
 	w.WriteString(g2c.funcs["Node_MarshalText"].text + "\n")
+	// mash.Add: the loop that feeds canonical k-mers to the hasher and the hashes to the sketch
+	g10 := loadPkg(filepath.Join(repo, "mash"))
+	g10.extObjs = map[string]bool{"mh": true}
+	g10.extObjOps = map[string]string{"mh_Push": "σ → UInt64 → σ", "mh_Sort": "σ → σ"}
+	g10.hashers = map[string]string{"murmur3.New64WithSeed": "hash64"}
+	g10.extFuncs = map[string]extFunc{"bytes.ToUpper": {"bytes_ToUpper", "List UInt8 → List UInt8"}}
+	g10.xIter = map[string][2]string{"sequtil.CanonicalSubsequences": {"CanonicalSubsequences", "g_complementBytes"}}
+	g10.extObjFunction("Add", "mash", "def Add {σ : Type} (g_Seed : UInt32) (g_complementBytes : "+B+") (bytes_ToUpper : "+B+" → "+B+") (hash64 : UInt32 → "+B+" → UInt64) (mh_Push : σ → UInt64 → σ) (mh_Sort : σ → σ) (mh : σ) (k : Int) (seqs : "+BB+") : Option σ := none",
+		[]string{"mh_Push", "mh_Sort"}, []string{"hash64"}, []string{"bytes.ToUpper"}, map[string]string{"g_complementBytes": B})
+	w.WriteString(strings.Replace(g10.funcs["Add"].text, "def Add", "def mash_Add", -1) + "\n")
 	g8 := loadPkg(filepath.Join(repo, "formats", "bed"))
 	// the read side: parseLine and (*reader).read.  *BED is an Option tuple, *bufio.Reader the abstract BufRd,
 	// strconv.Atoi / strconv.ParseUint are parameters
